@@ -17,6 +17,7 @@ type sysMap struct {
 	id      map[*mimetype.MIME]string
 	inputs  map[string][]byte
 	builtin map[string]*mimetype.MIME
+	alias   map[string]string // extension id -> id whose type string it is registered under (duplicates)
 }
 
 func jarBytes() []byte {
@@ -59,6 +60,7 @@ func (m *sysMap) reset() {
 	}
 	m.node = map[string]*mimetype.MIME{}
 	m.id = map[*mimetype.MIME]string{}
+	m.alias = map[string]string{}
 	for id, n := range m.builtin {
 		m.node[id] = n
 		m.id[n] = id
@@ -66,6 +68,9 @@ func (m *sysMap) reset() {
 }
 
 func (m *sysMap) realName(id string) string {
+	if a, ok := m.alias[id]; ok {
+		id = a
+	}
 	switch id {
 	case "root":
 		return "application/octet-stream"
